@@ -37,7 +37,8 @@ Record env := mkEnv {
   e_ovf : bool;         (* overflow checks compiled in *)
   e_latest : N;         (* blockchain.get_latest_block_id() *)
   e_gp : N;             (* blockchain.genesis_period *)
-  e_node : N            (* the node's own public key (interned), read by the pool only *)
+  e_node : N;           (* the node's own public key (interned), read by the pool only *)
+  e_no_chain : bool     (* blockchain.blocks.is_empty() && genesis_block_id == 0, read by the pool only *)
 }.
 
 (* TransactionType / SlipType discriminants *)
@@ -72,6 +73,10 @@ Definition has_bound (l : list aslip) : bool := existsb (is_type SBound) l.
 (* value-carrying, non-bound inputs: the ones that move coins *)
 Definition value_input (s : aslip) : bool := (0 <? sl_amount s) && negb (sl_type s =? SBound).
 Definition value_keys (t : atx) : list N := map sl_key (filter value_input (t_from t)).
+(* the inputs the duplicate tests look at: every slip with an amount, Bound ones included
+   (since /repo 2a74b4d) *)
+Definition has_amount (s : aslip) : bool := 0 <? sl_amount s.
+Definition dup_keys (t : atx) : list N := map sl_key (filter has_amount (t_from t)).
 
 Fixpoint nodupb (l : list N) : bool :=
   match l with
@@ -79,7 +84,17 @@ Fixpoint nodupb (l : list N) : bool :=
   | x :: t => negb (existsb (N.eqb x) t) && nodupb t
   end.
 
-Definition signer (t : atx) : N := match t_from t with s :: _ => sl_pk s | [] => 0 end.
+(* Transaction::signer_public_key (/repo c1271fb): the owner of the first input; in a transfer
+   of an NFT (Bound transaction, >= 3 inputs, first one a Bound slip) whose Normal slip carries
+   coins, the owner of that Normal slip *)
+Definition signer (t : atx) : N :=
+  match t_from t with
+  | s0 :: s1 :: _ :: _ =>
+      if (t_type t =? TBound) && (sl_type s0 =? SBound) && (0 <? sl_amount s1) then sl_pk s1 else sl_pk s0
+  | s :: _ => sl_pk s
+  | [] => 0
+  end.
+(* the ownership rule, for every user transaction (Bound-typed ones included) *)
 Definition all_owned (t : atx) : bool :=
   forallb (fun s => negb (value_input s) || (sl_pk s =? signer t)) (t_from t).
 
@@ -195,14 +210,14 @@ Definition common_checks (e : env) (t : atx) : verdict :=
   if user && match t_from t with [] => true | _ => false end then Invalid else
   if user && negb (t_has_hash t) then Invalid else
   if user && negb (t_sig_ok t) then Invalid else
-  if user && negb (t_type t =? TBound) && negb (all_owned t) then Invalid else
+  if user && negb (all_owned t) then Invalid else
   if user && negb (age_check (e_gp e) (e_next e) (t_from t)) then Invalid else
   common_tail e t.
 
 Definition tx_validate (e : env) (t : atx) : verdict :=
   if 255 <? Nlen (t_from t) then Invalid else
   if 255 <? Nlen (t_to t) then Invalid else
-  if negb (nodupb (value_keys t)) then Invalid else
+  if negb (nodupb (dup_keys t)) then Invalid else
   if t_type t =? TFee then Valid else
   if t_type t =? TSPV then
     (if existsb (fun s => 0 <? sl_amount s) (t_to t) then Invalid
@@ -220,16 +235,18 @@ Definition tx_validate (e : env) (t : atx) : verdict :=
   else common_checks e t.
 
 (* Mempool::add_transaction_if_validates, the validity gate only (reservations are
-   in model/Mempool.v): no producer-only types, no staking transaction that spends
-   outputs of another key than the node's own, and Transaction::validate *)
+   in model/Mempool.v): no producer-only types, issuance only while there is no chain
+   (/repo 716c212), no staking transaction that spends outputs of another key than the
+   node's own, and Transaction::validate *)
 Definition pool_gate (e : env) (t : atx) : bool :=
   negb ((t_type t =? TFee) || (t_type t =? TATR) || (t_type t =? TSPV))
+  && negb ((t_type t =? TIssuance) && negb (e_no_chain e))
   && negb ((t_type t =? TStake) && negb (forallb (fun s => sl_pk s =? e_node e) (t_from t)))
   && match tx_validate e t with Valid => true | _ => false end.
 
-(* the final sweep of Block::validate: every transaction validates, and no value
-   input is spent twice within the block (fee transactions excepted; zero-amount
-   and Bound inputs are skipped) *)
+(* the final sweep of Block::validate: every transaction validates, and no input with an
+   amount is spent twice within the block (fee transactions excepted; zero-amount inputs
+   are skipped) *)
 Fixpoint sweep (e : env) (seen : list N) (txs : list atx) : bool :=
   match txs with
   | [] => true
@@ -238,7 +255,7 @@ Fixpoint sweep (e : env) (seen : list N) (txs : list atx) : bool :=
       | Valid =>
           if t_type t =? TFee then sweep e seen rest
           else
-            let ks := value_keys t in
+            let ks := dup_keys t in
             if existsb (fun k => existsb (N.eqb k) seen) ks then false
             else sweep e (ks ++ seen) rest
       | _ => false
@@ -267,9 +284,17 @@ Definition signed_view (s : aslip) : N * N * N * N := (sl_pk s, sl_amount s, sl_
 Definition signed_content (t : atx) : N * list (N * N * N * N) * list (N * N * N * N) :=
   (t_type t, map signed_view (t_from t), map signed_view (t_to t)).
 (* ... and the signed bytes carry no counts: the 43-byte views of the inputs are followed
-   directly by those of the outputs, so what the signature really is a function of is the
-   flat sequence; where the inputs end is not signed.  (The slip_index inside an output's view
-   is the value the transaction arrived with; Transaction::generate hashes first and only then
-   renumbers the outputs by position.) *)
+   directly by those of the outputs, so the signature is a function of the flat sequence.
+   Since /repo 4d27589 Transaction::generate renumbers the outputs by position BEFORE it takes
+   the hash the signature is checked against, so in the signed bytes of any transaction that
+   reaches validation the slip_index of the i-th output is i ([outs_numbered]; the abstract
+   transaction is the transaction after generate()): that is what fixes where the inputs end
+   (proofs: signed_bytes_delimited). *)
 Definition signed_flat (t : atx) : N * list (N * N * N * N) :=
   (t_type t, map signed_view (t_from t) ++ map signed_view (t_to t)).
+Fixpoint numbered_from (i : N) (l : list aslip) : bool :=
+  match l with
+  | [] => true
+  | s :: rest => (sl_idx s =? i) && numbered_from (i + 1) rest
+  end.
+Definition outs_numbered (t : atx) : bool := numbered_from 0 (t_to t).
